@@ -117,6 +117,60 @@ Section Obj.
   Qed.
 
   (* ---- one property ---- *)
+  (* clean of the value present at the slot's name *)
+  Lemma clean_present_ok s vrefs st isnow setting' hc' :
+    In s (cslots c) ->
+    NoDup (map fst st) ->
+    (forall k x, In (k, x) st -> k <> sname s -> entry_ok k x) ->
+    match alookup (sname s) st with
+    | Some (PJ j) => if isnow then False else jscope j = true
+    | Some x => entry_ok (sname s) x /\ pval_has_custom x = false
+    | None => True
+    end ->
+    clean_present vr w rc rp ro c s false false vrefs st isnow = Ok (setting', hc') ->
+    hc' = false /\ Inv setting' /\
+    (forall k, amem k st = true -> amem k setting' = true) /\
+    (forall k, amem k setting' = true -> amem k st = true \/ k = sname s) /\
+    (amem (sname s) st = true -> amem (sname s) setting' = true).
+  Proof.
+    intros Hs ND Hoth Hraw H.
+    destruct (Hslots s Hs) as [s' [Hf [Hkr Hsk]]].
+    unfold clean_present in H. set (n := sname s) in *.
+    destruct (alookup n st) as [raw|] eqn:El.
+    - assert (Keep : forall x, alookup n st = Some x -> entry_ok n x -> Inv st).
+      { intros x Ex Hx. split; auto. intros k y Hin. destruct (ustr_eqb k n) eqn:E.
+        - apply ustr_eqb_eq in E. subst k. rewrite (alookup_In_nodup _ _ _ ND Hin) in Ex. inversion Ex; subst. auto.
+        - apply Hoth; auto. apply ustr_eqb_neq. auto. }
+      destruct raw as [j| | | |].
+      + destruct isnow; [contradiction|].
+        destruct (clean_kind vr w rc rp ro (skind s) false false j) as [[v hc]| |] eqn:Ec; try discriminate.
+        inv_bind H. inversion Hb; subst. clear Hb Ha.
+        destruct (Hsk j v hc' Hraw Ec) as [-> [m Hm]].
+        split; auto. split; [|split; [|split]].
+        * split; [apply keys_aset_nodup; auto|].
+          intros k x Hin. apply In_aset_nodup in Hin; auto. destruct Hin as [[-> ->] | [Hin Hne]].
+          -- exists s'. split; eauto.
+          -- apply Hoth; auto.
+        * intros k Hk. rewrite amem_aset, Hk. apply orb_true_r.
+        * intros k Hk. rewrite amem_aset in Hk. apply orb_true_iff in Hk. destruct Hk as [Hk | Hk]; auto.
+          right. apply ustr_eqb_eq. auto.
+        * intros _. rewrite amem_aset, ustr_eqb_refl. auto.
+      + destruct Hraw as [He Hc]. assert (setting' = st /\ hc' = false) as [-> ->].
+        { destruct isnow; inversion H; subst; auto. }
+        repeat split; auto; try (eapply Keep; eauto; fail). apply (Keep _ eq_refl He). apply (Keep _ eq_refl He).
+      + destruct Hraw as [He Hc]. assert (setting' = st /\ hc' = false) as [-> ->].
+        { destruct isnow; inversion H; subst; auto. }
+        repeat split; auto. apply (Keep _ eq_refl He). apply (Keep _ eq_refl He).
+      + destruct Hraw as [He Hc]. assert (setting' = st /\ hc' = false) as [-> ->].
+        { destruct isnow; inversion H; subst; auto. }
+        repeat split; auto. apply (Keep _ eq_refl He). apply (Keep _ eq_refl He).
+      + destruct Hraw as [He Hc]. assert (setting' = st /\ hc' = false) as [-> ->].
+        { destruct isnow; inversion H; subst; auto. }
+        repeat split; auto. apply (Keep _ eq_refl He). apply (Keep _ eq_refl He).
+    - inversion H; subst. repeat split; auto.
+      intros k x Hin. apply Hoth; auto. intros ->. rewrite (alookup_In_nodup _ _ _ ND Hin) in El. discriminate.
+  Qed.
+
   Lemma check_property_ok s vrefs setting1 setting' hc' :
     In s (cslots c) ->
     NoDup (map fst setting1) ->
@@ -134,147 +188,69 @@ Section Obj.
   Proof.
     intros Hs ND Hothers Hraw H.
     destruct (Hslots s Hs) as [s' [Hf [Hkr Hsk]]].
-    unfold check_property in H. set (n := sname s) in *.
-    (* a uniform treatment of "the value at n is raw JSON j in scope, everything else is fine" *)
-    assert (Clean : forall st j,
-               NoDup (map fst st) ->
-               (forall k x, In (k, x) st -> k <> n -> entry_ok k x) ->
-               alookup n st = Some (PJ j) -> jscope j = true ->
-               match clean_kind vr w rc rp ro (skind s) false false j with
-               | Ok (v, hc) =>
-                 do _ <- (match cfamily c, cver c, vrefs with
-                          | FSco, V20, Some refs =>
-                            let chk (allowed : list ustring) (r : pval) : result unit :=
-                                match r with
-                                | PJ (JStr key) =>
-                                  match alookup key refs with
-                                  | None => Err EInvalidObjRef
-                                  | Some t => match allowed with
-                                              | [] => Ok tt
-                                              | _ => if mem_ustr t allowed then Ok tt else Err EInvalidObjRef
-                                              end
-                                  end
-                                | _ => Unmodelled
-                                end in
-                            match skind s, v with
-                            | KObjRef allowed, _ => if ustr_prefix (rev (u "_ref")) (rev n) then chk allowed v else Ok tt
-                            | KList (KObjRef allowed), PArr l =>
-                              if ustr_prefix (rev (u "_refs")) (rev n) then
-                                (fix go (l : list pval) : result unit :=
-                                   match l with [] => Ok tt | x :: r => do _ <- chk allowed x; go r end) l
-                              else Ok tt
-                            | _, _ => Ok tt
-                            end
-                          | _, _, _ => Ok tt
-                          end);
-                 Ok (aset n v st, hc)
-               | Err e => Err EInvalidValue
-               | Unmodelled => Unmodelled
-               end = Ok (setting', hc') ->
-               hc' = false /\ Inv setting' /\
-               (forall k, amem k st = true -> amem k setting' = true) /\
-               (forall k, amem k setting' = true -> amem k st = true \/ k = n) /\
-               amem n setting' = true).
-    { intros st j NDst Hoth Hl Hj Hc.
-      destruct (clean_kind vr w rc rp ro (skind s) false false j) as [[v hc]| |] eqn:Ec; try discriminate.
-      inv_bind Hc. inversion Hcb; subst. clear Hcb Hca.
-      destruct (Hsk j v hc' Hj Ec) as [-> [m Hm]].
-      split; auto. split; [|split; [|split]].
-      - split; [apply keys_aset_nodup; auto|].
-        intros k x Hin. apply In_aset_nodup in Hin; auto. destruct Hin as [[-> ->] | [Hin Hne]].
-        + exists s'. split; eauto.
-        + apply Hoth; auto.
-      - intros k Hk. rewrite amem_aset, Hk. apply orb_true_r.
-      - intros k Hk. rewrite amem_aset in Hk. apply orb_true_iff in Hk. destruct Hk as [Hk | Hk]; auto.
-        right. apply ustr_eqb_eq. auto.
-      - rewrite amem_aset, ustr_eqb_refl. auto. }
+    unfold check_property in H. inv_bind H. destruct a as [st isnow]. simpl in Hb.
+    unfold default_value in Ha. set (n := sname s) in *.
     destruct (alookup n setting1) as [raw|] eqn:El.
     - (* a value was given (or wrapped by the class __init__) *)
-      simpl in H. rewrite El in H.
-      destruct raw as [j| | | |].
-      + destruct (Clean setting1 j ND Hothers El Hraw H) as (A & B & C & D & E). repeat split; auto; apply B.
-      + inversion H; subst. destruct Hraw as [He Hc]. repeat split; auto.
-        * intros k x Hin. destruct (ustr_eqb k n) eqn:E.
-          -- apply ustr_eqb_eq in E. subst k. rewrite (alookup_In_nodup _ _ _ ND Hin) in El. inversion El; subst. auto.
-          -- apply Hothers; auto. apply ustr_eqb_neq. auto.
-        * intros _. apply amem_alookup. eauto.
-      + inversion H; subst. destruct Hraw as [He Hc]. repeat split; auto.
-        * intros k x Hin. destruct (ustr_eqb k n) eqn:E.
-          -- apply ustr_eqb_eq in E. subst k. rewrite (alookup_In_nodup _ _ _ ND Hin) in El. inversion El; subst. auto.
-          -- apply Hothers; auto. apply ustr_eqb_neq. auto.
-        * intros _. apply amem_alookup. eauto.
-      + inversion H; subst. destruct Hraw as [He Hc]. repeat split; auto.
-        * intros k x Hin. destruct (ustr_eqb k n) eqn:E.
-          -- apply ustr_eqb_eq in E. subst k. rewrite (alookup_In_nodup _ _ _ ND Hin) in El. inversion El; subst. auto.
-          -- apply Hothers; auto. apply ustr_eqb_neq. auto.
-        * intros _. apply amem_alookup. eauto.
-      + inversion H; subst. destruct Hraw as [He Hc]. repeat split; auto.
-        * intros k x Hin. destruct (ustr_eqb k n) eqn:E.
-          -- apply ustr_eqb_eq in E. subst k. rewrite (alookup_In_nodup _ _ _ ND Hin) in El. inversion El; subst. auto.
-          -- apply Hothers; auto. apply ustr_eqb_neq. auto.
-        * intros _. apply amem_alookup. eauto.
+      inversion Ha; subst. clear Ha.
+      destruct (clean_present_ok s vrefs st false setting' hc' Hs ND Hothers) as (A & B & C & D & E); auto.
+      { fold n. rewrite El. destruct raw; auto. }
+      repeat split; auto; try apply B. intros _. apply E. apply amem_alookup. eauto.
     - (* nothing given: the default, if any *)
       assert (Absent : forall k x, In (k, x) setting1 -> k <> n).
       { intros k x Hin ->. rewrite (alookup_In_nodup _ _ _ ND Hin) in El. discriminate. }
-      assert (Hoth' : forall st v, st = aset n v setting1 -> forall k x, In (k, x) st -> k <> n -> entry_ok k x).
-      { intros st v -> k x Hin Hne. apply In_aset_nodup in Hin; auto. destruct Hin as [[-> _] | [Hin _]]; [contradiction|].
+      assert (Hoth' : forall v k x, In (k, x) (aset n v setting1) -> k <> n -> entry_ok k x).
+      { intros v k x Hin Hne. apply In_aset_nodup in Hin; auto. destruct Hin as [[-> _] | [Hin _]]; [contradiction|].
         apply Hothers; auto. }
+      (* what happens once a default v has been put in *)
+      assert (Put : forall v isn,
+                 st = aset n v setting1 -> isnow = isn ->
+                 match v with
+                 | PJ j => if isn then False else jscope j = true
+                 | x => entry_ok n x /\ pval_has_custom x = false
+                 end ->
+                 hc' = false /\ Inv setting' /\
+                 (forall k, amem k setting1 = true -> amem k setting' = true) /\
+                 (forall k, amem k setting' = true -> amem k setting1 = true \/ k = n) /\
+                 amem n setting' = true).
+      { intros v isn -> -> Hv.
+        destruct (clean_present_ok s vrefs (aset n v setting1) isn setting' hc' Hs) as (A & B & C & D & E); auto.
+        - apply keys_aset_nodup; auto.
+        - fold n. rewrite alookup_aset_same. exact Hv.
+        - repeat split; auto; try apply B.
+          + intros k Hk. apply C. rewrite amem_aset, Hk. apply orb_true_r.
+          + intros k Hk. destruct (D k Hk) as [Hk' | Hk']; auto. rewrite amem_aset in Hk'.
+            apply orb_true_iff in Hk'. destruct Hk' as [Hk' | Hk']; auto. right. apply ustr_eqb_eq. auto.
+          + apply E. rewrite amem_aset, ustr_eqb_refl. auto. }
       destruct (sdef s) eqn:Ed.
       + (* no default *)
-        simpl in H. rewrite El in H. inversion H; subst. repeat split; auto.
-        * intros k x Hin. apply Hothers; auto. eapply Absent; eauto.
-        * unfold default_present. rewrite Ed. discriminate.
+        inversion Ha; subst. clear Ha.
+        destruct (clean_present_ok s vrefs st false setting' hc' Hs ND Hothers) as (A & B & C & D & E); auto.
+        { fold n. rewrite El. auto. }
+        repeat split; auto; try apply B. unfold default_present. rewrite Ed. discriminate.
       + (* fixed *)
-        destruct (skind s) eqn:Ek; try discriminate. simpl in H. rewrite alookup_aset_same in H.
-        rewrite <- Ek in H.
-        destruct (Clean (aset n (PJ (JStr v)) setting1) (JStr v)) as (A & B & C & D & E); auto.
-        { apply keys_aset_nodup; auto. }
-        { eapply Hoth'; eauto. }
-        { apply alookup_aset_same. }
-        repeat split; auto; try apply B.
-        * intros k Hk. apply C. rewrite amem_aset, Hk. apply orb_true_r.
-        * intros k Hk. destruct (D k Hk) as [Hk' | Hk']; auto. rewrite amem_aset in Hk'.
-          apply orb_true_iff in Hk'. destruct Hk' as [Hk' | Hk']; auto. right. apply ustr_eqb_eq. auto.
+        destruct (skind s) eqn:Ek; try discriminate. inversion Ha; subst. clear Ha.
+        destruct (Put (PJ (JStr v)) false) as (A & B & C & D & E); auto.
+        repeat split; auto; apply B.
       + (* the clock *)
         destruct (skind s) eqn:Ek; try discriminate.
         destruct (ts_clean_now (vr_year_pad vr) p c0 (e_now ev)) as [r| |] eqn:Et; try discriminate.
-        simpl in H. rewrite alookup_aset_same in H. inversion H; subst. clear H.
-        assert (Hv : entry_ok n (PTime (fst r) (snd r))).
-        { exists s'. split; auto. rewrite Ek in Hkr. destruct (skind s') eqn:Ek'; simpl in Hkr; try discriminate.
+        simpl in Ha. inversion Ha; subst. clear Ha.
+        destruct (Put (PTime (fst r) (snd r)) true) as (A & B & C & D & E); auto.
+        { split; auto. exists s'. split; auto. rewrite Ek in Hkr. destruct (skind s') eqn:Ek'; simpl in Hkr; try discriminate.
           apply andb_true_iff in Hkr. destruct Hkr as [Hp Hc].
           assert (p0 = p) by (destruct p, p0; simpl in Hp; auto; discriminate).
           assert (c1 = c0) by (destruct c0, c1; simpl in Hc; auto; discriminate). subst.
           exists 1%nat. simpl. rewrite Hpad in Et. eapply ts_clean_now_valid; eauto. }
-        repeat split; auto.
-        * apply keys_aset_nodup; auto.
-        * intros k x Hin. apply In_aset_nodup in Hin; auto. destruct Hin as [[-> ->] | [Hin _]]; auto.
-          apply Hothers; auto. eapply Absent; eauto.
-        * intros k Hk. rewrite amem_aset, Hk. apply orb_true_r.
-        * intros k Hk. rewrite amem_aset in Hk. apply orb_true_iff in Hk. destruct Hk as [Hk | Hk]; auto.
-          right. apply ustr_eqb_eq. auto.
-        * intros _. rewrite amem_aset, ustr_eqb_refl. auto.
+        repeat split; auto; apply B.
       + (* uuid4 *)
-        destruct (skind s) eqn:Ek; try discriminate. simpl in H. rewrite alookup_aset_same in H.
-        rewrite <- Ek in H.
-        destruct (Clean (aset n (PJ (JStr (prefix ++ e_uuid4 ev))) setting1) (JStr (prefix ++ e_uuid4 ev))) as (A & B & C & D & E); auto.
-        { apply keys_aset_nodup; auto. }
-        { eapply Hoth'; eauto. }
-        { apply alookup_aset_same. }
-        repeat split; auto; try apply B.
-        * intros k Hk. apply C. rewrite amem_aset, Hk. apply orb_true_r.
-        * intros k Hk. destruct (D k Hk) as [Hk' | Hk']; auto. rewrite amem_aset in Hk'.
-          apply orb_true_iff in Hk'. destruct Hk' as [Hk' | Hk']; auto. right. apply ustr_eqb_eq. auto.
+        destruct (skind s) eqn:Ek; try discriminate. inversion Ha; subst. clear Ha.
+        destruct (Put (PJ (JStr (prefix ++ e_uuid4 ev))) false) as (A & B & C & D & E); auto.
+        repeat split; auto; apply B.
       + (* a constant *)
-        simpl in H. rewrite alookup_aset_same in H.
-        destruct (Clean (aset n (PJ j) setting1) j) as (A & B & C & D & E); auto.
-        { apply keys_aset_nodup; auto. }
-        { eapply Hoth'; eauto. }
-        { apply alookup_aset_same. }
+        inversion Ha; subst. clear Ha.
+        destruct (Put (PJ j) false) as (A & B & C & D & E); auto.
         { eapply Hdconst; eauto. }
-        repeat split; auto; try apply B.
-        * intros k Hk. apply C. rewrite amem_aset, Hk. apply orb_true_r.
-        * intros k Hk. destruct (D k Hk) as [Hk' | Hk']; auto. rewrite amem_aset in Hk'.
-          apply orb_true_iff in Hk'. destruct Hk' as [Hk' | Hk']; auto. right. apply ustr_eqb_eq. auto.
-        * unfold default_present. rewrite Ed. discriminate.
+        repeat split; auto; try apply B. unfold default_present. rewrite Ed. discriminate.
   Qed.
 End Obj.
